@@ -59,6 +59,19 @@ def generate(seed, mode="c01", base_cfg=None):
             if op[0] == "end" and op[1] != top and ch.chance(1, 2):
                 out.append([ch.pick(["elaborate", "to_proto"], "hist"), [op[1]], True])
         ops = out
+    if mode == "c05":
+        # once a module is written, some of its members are assigned (or added) to their own names
+        # again - legal, and without effect - before anything elaborates it.  (Drawn off the tape.)
+        out = []
+        styles = {op[1]: op[3] for op in ops if op[0] == "module"}
+        for op in ops:
+            out.append(op)
+            if op[0] == "end" and styles.get(op[1]) != "gen" and hash64(seed, "readd", op[1]) % 2:
+                names = [o_[2] for o_ in ops if o_[0] in ("sig", "inst", "arr") and o_[1] == op[1]]
+                names = sorted(set(names), key=lambda n_: hash64(seed, "readdname", n_))[: 1 + hash64(seed, "readdn", op[1]) % 3]
+                for n_ in names:
+                    out.append(["readd", op[1], n_, "set" if hash64(seed, "readdhow", n_) % 2 else "add"])
+        ops = out
     scn = {
         "profile": "conn",
         "mode": mode,
@@ -193,6 +206,21 @@ def execute(scn):
         res["rejected"] = build_exc
         res["nontrivial"] = False
         return res
+    # before the export, sometimes: an elaboration that fails *elsewhere* (an unnamed sibling top,
+    # which stops the last pass) after every other pass has been through `top`.  `top` is not the
+    # offending module: an ill-forming edit on it is refused or the export raises (C02, C06), and
+    # without an accepted edit the export below still describes the circuit (C01, C08).
+    if scn["mode"] == "c01" and hash64(scn.get("seed"), "partial") % 4 == 0 and it.mods[top].module is not None:
+        try:
+            h.elaborate([h.Module(), it.mods[top].module])
+            probe("partial_prefix_did_not_fail")
+        except Exception:  # noqa
+            probe("partial_elaboration_prefix")
+            if hash64(scn.get("seed"), "partialedit") % 2 == 0 and _edit_then_export(scn, res, it, design, top, probe, "partial"):
+                res["nontrivial"] = True
+                res["sig"] = hash64(shape_sig(ops), sched.trace_digest, scn["sched"][0])
+                res["sched"] = sched.stats()
+                return res
     r = it.run(["to_proto", [top], True] + ([scn["pkg_domain"]] if scn.get("pkg_domain") else []))
     res["sched"] = sched.stats()
     if not r["ok"]:
@@ -258,35 +286,7 @@ def execute(scn):
     # after the export: a connection edit on an instance of the (now elaborated) top is either
     # refused, or the package exported next is still closed (C06: *every* returned package)
     if scn["mode"] == "c01" and not res["findings"] and hash64(scn.get("seed"), "late") % 3 == 0:
-        env = it.mods[top]
-        insts = sorted(n for n, info in design.mods[top].insts.items() if info["kind"] == "inst" and n in env.objs)
-        sigs = sorted(n for n in design.mods[top].sigs if n in env.objs)
-        if insts and sigs and env.module is not None:
-            live = env.module.instances.get(insts[hash64(scn.get("seed"), "li") % len(insts)])
-            try:
-                if live is None:
-                    raise LookupError
-                if hash64(scn.get("seed"), "lateform") % 2 and live.conns:
-                    # replace() of an existing connection by a signal of another width
-                    pn = sorted(live.conns)[0]
-                    have_w = getattr(live.conns[pn], "width", None)
-                    other = [env.objs[n_] for n_ in sigs if isinstance(have_w, int) and design.mods[top].sigs[n_][0] != have_w]
-                    if not other:
-                        raise LookupError
-                    live.replace(pn, other[0])
-                else:
-                    live.connect("nosuchport_z", env.objs[sigs[0]])
-                probe("late_connection_accepted")
-                r3 = it.run(["to_proto", [top], True])
-                if r3["ok"]:
-                    cv = netview.closed_violations(r3["pkg"], prim_ports(), check_tools=False)
-                    if cv:
-                        # the edit made the design ill-formed (a connection to a port that does not exist,
-                        # or of another width) and a package was returned for it all the same
-                        res["findings"].append({"prop": "C02", "clause": "accepted:late_edit", "detail": ["a connection edit made after elaboration left the design ill-formed, and to_proto returned a package for it"] + cv[:2]})
-                        res["findings"].append({"prop": "C06", "clause": "closed", "detail": cv[:3] + ["(package exported after a connection was made on an instance of the elaborated module)"]})
-            except Exception:  # noqa
-                probe("late_connection_refused")
+        _edit_then_export(scn, res, it, design, top, probe, "late")
     res["nontrivial"] = len(model["leaves"]) >= 1
     if scn["mode"] == "c05":
         res["nontrivial"] = res["nontrivial"] and scn.get("adv", 0) > 0
@@ -295,6 +295,47 @@ def execute(scn):
     res["sig"] = hash64(shape_sig(ops), sched.trace_digest, scn["sched"][0])
     res["leaves"] = len(model["leaves"])
     return res
+
+
+def _edit_then_export(scn, res, it, design, top, probe, when):
+    """An ill-forming connection edit on an instance of `top` (a port that does not exist, or a
+    signal of another width), then an export.  The edit is refused, or the export raises, or -
+    findings - a package comes back for the ill-formed design.  Returns True if the edit was accepted."""
+    env = it.mods[top]
+    insts = sorted(n for n, info in design.mods[top].insts.items() if info["kind"] == "inst" and n in env.objs)
+    sigs = sorted(n for n in design.mods[top].sigs if n in env.objs)
+    if not (insts and sigs and env.module is not None):
+        return False
+    live = env.module.instances.get(insts[hash64(scn.get("seed"), "li") % len(insts)])
+    try:
+        if live is None:
+            raise LookupError
+        if hash64(scn.get("seed"), "lateform") % 2 and live.conns:
+            # replace() of an existing connection by a signal of another width
+            pn = sorted(live.conns)[0]
+            have_w = getattr(live.conns[pn], "width", None)
+            other = [env.objs[n_] for n_ in sigs if isinstance(have_w, int) and design.mods[top].sigs[n_][0] != have_w]
+            if not other:
+                raise LookupError
+            live.replace(pn, other[0])
+        else:
+            live.connect("nosuchport_z", env.objs[sigs[0]])
+    except Exception:  # noqa
+        probe(f"{when}_connection_refused")
+        return False
+    probe(f"{when}_connection_accepted")
+    r3 = it.run(["to_proto", [top], True])
+    if r3["ok"]:
+        cv = netview.closed_violations(r3["pkg"], prim_ports(), check_tools=False)
+        if cv:
+            # the edit made the design ill-formed (a connection to a port that does not exist,
+            # or of another width) and a package was returned for it all the same
+            what = "after elaboration" if when == "late" else "after an elaboration that failed elsewhere had been through the module"
+            res["findings"].append({"prop": "C02", "clause": f"accepted:{when}_edit", "detail": [f"a connection edit made {what} left the design ill-formed, and to_proto returned a package for it"] + cv[:2]})
+            res["findings"].append({"prop": "C06", "clause": "closed", "detail": cv[:3] + ["(package exported after a connection was made on an instance of the module)"]})
+    else:
+        probe(f"{when}_edit_export_raised")
+    return True
 
 
 def final_only(ops, design):
